@@ -8,7 +8,7 @@ use serde::{Deserialize, Serialize};
 use serde_json::json;
 use std::time::Duration;
 
-pub const RULE: &str = "the spin options and their ranges are read from the engine's own 'uci' answer (name, min, max - not hard-coded). A session = 2-12 steps over {setoption <spin option> value v with v in {min, min+1, default, max-1, max, interior values}, isready, ucinewgame, position <generated game>, go depth 2-4 (also with clocks after Move Overhead was set), go movetime 1100-1400 (a search longer than a second)} in any order, before and between searches, then quit. Oracle on the shipped binary: every isready is answered by readyok; every go by exactly one bestmove that is legal in the position (reference model); nothing that looks like the panic hook's output; after quit the process exits with status 0. A 'long_sessions' part sets Hash (mostly to its smallest advertised value) and runs 256-300 shallow searches in a row. In-process twin (checked build): tt.resize(v) for boundary and interior sizes followed by a search. Non-trivial = session that searches after setting Hash to a boundary value or after two different Hash values; distinct by session.";
+pub const RULE: &str = "the spin options and their ranges are read from the engine's own 'uci' answer (name, min, max - not hard-coded). A session = 2-12 steps over {setoption <spin option> value v with v in {min, min+1, default, max-1, max, interior values}, isready, ucinewgame, position <generated game>, go depth 2-4 (also with clocks after Move Overhead was set), go movetime 1100-1400 (a search longer than a second)} in any order, before and between searches, then quit. Oracle on the shipped binary: every isready is answered by readyok; every go by exactly one bestmove that is legal in the position (reference model); nothing that looks like the panic hook's output; after quit the process exits with status 0. A 'long_sessions' part sets Hash (mostly to its smallest advertised value) and runs 256-300 shallow searches in a row. In-process twin (checked build): tt.resize(v) for boundary and interior sizes followed by a search. A 'smallest_hash_time_limited' part sets Hash to its smallest value and runs six searches without depth limit (go movetime 80-220, or clocks) on middlegame positions. Non-trivial = session that searches after setting Hash to a boundary value or after two different Hash values; distinct by session.";
 
 #[derive(Serialize, Deserialize, Clone, Debug, PartialEq)]
 pub enum Step {
@@ -92,6 +92,9 @@ fn from_tape(data: &[u16], spins: &[Spin]) -> Vec<Step> {
                     }
                     if t.pick(10) == 0 {
                         steps.push(Step::GoMoveTime { ms: 1100 + t.pick(300) as u32 });
+                    } else if t.pick(3) == 0 {
+                        // no depth limit: iterative deepening runs as far as the time allows
+                        steps.push(Step::GoMoveTime { ms: 60 + t.pick(120) as u32 });
                     } else {
                         steps.push(Step::Go { depth: 2 + t.pick(3) as u8, clocks: None });
                     }
@@ -106,6 +109,10 @@ fn from_tape(data: &[u16], spins: &[Spin]) -> Vec<Step> {
             }
             _ => {
                 let _ = have_position;
+                if t.pick(4) == 0 {
+                    steps.push(Step::GoMoveTime { ms: 60 + t.pick(120) as u32 });
+                    continue;
+                }
                 let clocks = if t.pick(4) == 0 { Some((200 + t.pick(2000) as u32, 200 + t.pick(2000) as u32)) } else { None };
                 steps.push(Step::Go { depth: 2 + t.pick(3) as u8, clocks });
             }
@@ -276,7 +283,7 @@ pub fn run(run: &mut Run) -> &'static str {
     // long sessions on a boundary value: 300 shallow searches in a row after setting Hash (the
     // smallest advertised size weighs most), no ucinewgame in between
     let cases = tier.pick(24, 400);
-    let strat = tape(12..60).prop_map(Case::Tape);
+    let strat = tape(40..160).prop_map(Case::Tape);
     run.proptest_part("long_sessions", RULE, strat, cases, move |c: &Case, st: &mut Stats| {
         let steps: Vec<Step> = match c {
             Case::Tape(data) => {
@@ -305,6 +312,40 @@ pub fn run(run: &mut Run) -> &'static str {
             Case::Explicit { steps } => steps.clone(),
         };
         st.class("long_session");
+        run_session(&steps, spins_ref, st)
+    });
+    // the smallest advertised Hash with searches that have no depth limit (fixed move time, clocks):
+    // iterative deepening reaches depths of 5-10 on a table of a single slot, which the depth 2-4
+    // searches of the other parts never do
+    let cases = tier.pick(64, 1_000);
+    let strat = tape(200..360).prop_map(Case::Tape);
+    run.proptest_part("smallest_hash_time_limited", RULE, strat, cases, move |c: &Case, st: &mut Stats| {
+        let steps: Vec<Step> = match c {
+            Case::Tape(data) => {
+                let mut t = Tape::new(data);
+                let hash = spins_ref.iter().find(|s| s.name == "Hash");
+                let v = match (hash, t.pick(5)) {
+                    (Some(h), 4) => h.min + 1.min(h.max - h.min),
+                    (Some(h), _) => h.min,
+                    (None, _) => 1,
+                };
+                let mut steps = vec![Step::Set { option: "Hash".into(), value: v }];
+                for _ in 0..6 {
+                    if let Some((fen, moves, _, _)) = gen_game_opts(&mut t, 0, 6, false) {
+                        steps.push(Step::Position { fen, moves });
+                    }
+                    if t.pick(4) == 0 {
+                        steps.push(Step::Go { depth: 6, clocks: Some((300 + t.pick(600) as u32, 300 + t.pick(600) as u32)) });
+                    } else {
+                        steps.push(Step::GoMoveTime { ms: 80 + t.pick(140) as u32 });
+                    }
+                }
+                steps.push(Step::IsReady);
+                steps
+            }
+            Case::Explicit { steps } => steps.clone(),
+        };
+        st.class("smallest_hash_time_limited");
         run_session(&steps, spins_ref, st)
     });
     run.workers = old;
